@@ -187,6 +187,7 @@ fn strategy() -> impl Strategy<Value = Case> {
 }
 
 fn run(ctx: &Ctx) {
+    ctx.set_shrink_budget(250);
     ctx.run_sub("files", ctx.tier.pick(600, 10_000), strategy, check);
 }
 
